@@ -250,17 +250,33 @@ def seaweed(db, rep):
                 rep.check(ok, rule, f"Optimizer.add_seaweed_to_model[{nm}|{env}]",
                           f"month-0 seaweed pin {nm} is not implied", loc=OPT)
         else:
-            # growth-and-harvest ledger; the growth factor is whatever multiplies wet[m-1]:
-            # it must be (1 + g[m]/100) with g the supplied monthly percentage series
-            ledger = db.spec(
-                t,
-                f'{V_("seaweed_wet_on_farm")} - {V_("seaweed_wet_on_farm", -1)} * (1 + tc["growth_rates_monthly"][month] / 100)'
-                f' + {H("seaweed")} * {V_("seaweed_to_humans")} + {V_("seaweed_feed")} + {V_("seaweed_biofuel")}'
-                f' + ({V_("used_area")} - {V_("used_area", -1)}) * consts["MINIMUM_DENSITY"] * consts["HARVEST_LOSS"] / 100',
-            )
-            ok, resid = implied_eq(t, ledger)
-            rep.check(ok, rule, f"Optimizer.add_seaweed_to_model[ledger|{env}]",
-                      "seaweed growth-and-harvest ledger is not implied", loc=OPT, detail=f"residual: {resid}")
+            # growth-and-harvest ledger.  The factor F that multiplies last month's biomass is read off the template; it must
+            # depend on nothing but this month's supplied growth value (that F is the right function of the daily growth is
+            # C08.GROWTH).  Obligation: wet[m] = F*wet[m-1] - humans/(1-waste) - feed - biofuel - (area[m]-area[m-1])*rho_min*loss/100
+            eqs = [c for _, c in t.constraints if isinstance(c, Cmp) and c.sense == "==" and any(
+                v.family == "seaweed_wet_on_farm" for v in c.expr.vars())]
+            F = None
+            if len(eqs) == 1:
+                co, _ = eqs[0].expr.linear_in_vars()
+                wets = sorted([v for v in co if v.family == "seaweed_wet_on_farm"], key=lambda v: (v.idx.m, v.idx.n, v.idx.c))
+                if len(wets) == 2:
+                    F = (Rat.const(0) - co[wets[0]]) / co[wets[1]]
+            okF = F is not None and not F.vars() and all(
+                getattr(a, "path", None) == ("tc", "growth_rates_monthly", "[]") for a in F.atoms())
+            rep.check(okF, rule, f"Optimizer.add_seaweed_to_model[growth-factor|{env}]",
+                      "the factor multiplying last month's seaweed biomass is not a function of this month's supplied growth value only",
+                      loc=OPT, detail=str(F))
+            if okF:
+                ledger = db.spec(
+                    t,
+                    f'{V_("seaweed_wet_on_farm")} - {V_("seaweed_wet_on_farm", -1)} * FACTOR'
+                    f' + {H("seaweed")} * {V_("seaweed_to_humans")} + {V_("seaweed_feed")} + {V_("seaweed_biofuel")}'
+                    f' + ({V_("used_area")} - {V_("used_area", -1)}) * consts["MINIMUM_DENSITY"] * consts["HARVEST_LOSS"] / 100',
+                    extra={"FACTOR": F},
+                )
+                ok, resid = implied_eq(t, ledger)
+                rep.check(ok, rule, f"Optimizer.add_seaweed_to_model[ledger|{env}]",
+                          "seaweed growth-and-harvest ledger is not implied", loc=OPT, detail=f"residual: {resid}")
     rep.require_min(rule, 14)
 
 
